@@ -1,2 +1,1434 @@
-(* Red-black tree bins (C06): invariants preserved by every tree-bin operation. *)
+(* Red-black tree bins (C06): invariants preserved by every tree-bin operation.
+
+   Everything below is about the executable models in Model/RB.v and the boolean invariants in
+   Model/WF.v; nothing is assumed (see the axiom audit at the end of the file).
+
+   Method.  The order on (hash,key) is the Prop [nlt]; [ordered t None None] is reflected as
+   [sorted (t_elems t)] (StronglySorted).  A zipper [p] lists the nodes to the left ([pl p]) and to
+   the right ([pr p]) of its focus; plug, bal_ins, bal_del and t_delete_at all have the in-order
+   listing [pl p ++ (focus) ++ pr p], so ordering and the Permutation statements are list facts.
+   Colours and black heights are carried by three path invariants: [PBH p n m] (a focus of black
+   height n gives a tree of black height m), [path_ok xred p] (no red-red on the path, the focus
+   being red iff xred) and [last_black p] (the root frame is black).  Insertion keeps
+   "x is a red node, path_ok false p"; deletion keeps "x is one black level short of what p
+   expects" ([PBH p (S n) m] with [bheight x = Some n]).
+
+   Main results (exact names requested): t_insert_rb, t_insert_elems, t_new_rb, t_find_spec,
+   t_find_lb_find, t_set_rb, t_set_elems (+ t_set_elems_lb), t_delete_rb, rb_height,
+   t_find_cost_le, tb_new_ok, tb_put_ok, tb_set_ok, tb_remove_ok.
+
+   No statement was found to be false of the model.  The hypothesis [too_small t = false] of
+   t_delete_rb is necessary: see Example t_delete_needs_too_small near the end. *)
+From Coq Require Import List ZArith NArith Bool Lia Permutation Sorted.
 From Flurry Require Import Model.WF.
+Import ListNotations.
+Local Open Scope N_scope.
+
+(* ---------- the order on (hash,key) ---------- *)
+Definition nlt (a b : node) : Prop := nh a < nh b \/ (nh a = nh b /\ nk a < nk b).
+Definition pk (h k : N) : node := N_ h k 0 0%Z.
+
+Lemma lt_node_iff a b : lt_node a b = true <-> nlt a b.
+Proof.
+  unfold lt_node, nlt.
+  destruct (N.compare_spec (nh a) (nh b)) as [H|H|H]; rewrite ?N.ltb_lt;
+    split; intros H1; try discriminate; try reflexivity; lia.
+Qed.
+
+Lemma ncmp_spec h k e :
+  match ncmp h k e with
+  | Lt => nlt (pk h k) e
+  | Gt => nlt e (pk h k)
+  | Eq => nh e = h /\ nk e = k
+  end.
+Proof.
+  unfold ncmp, nlt, pk; cbn.
+  destruct (N.compare_spec h (nh e)) as [H|H|H];
+    [destruct (N.compare_spec k (nk e)) as [H1|H1|H1]|..]; lia.
+Qed.
+
+Lemma matches_iff h k n : matches h k n = true <-> nh n = h /\ nk n = k.
+Proof. unfold matches. rewrite andb_true_iff, !N.eqb_eq. tauto. Qed.
+
+Lemma nlt_trans a b c : nlt a b -> nlt b c -> nlt a c.
+Proof. unfold nlt; lia. Qed.
+Lemma nlt_irrefl a : ~ nlt a a.
+Proof. unfold nlt; lia. Qed.
+
+(* ---------- sorted lists ---------- *)
+Definition sorted (l : list node) : Prop := StronglySorted nlt l.
+
+Lemma sorted_app l1 l2 :
+  sorted (l1 ++ l2) <->
+  sorted l1 /\ sorted l2 /\ (forall a b, In a l1 -> In b l2 -> nlt a b).
+Proof.
+  unfold sorted. induction l1 as [|x l1 IH]; cbn.
+  - split.
+    + intros H. split; [constructor|]. split; [exact H|]. intros a b [].
+    + intros (_ & H & _). exact H.
+  - split.
+    + intros H. inversion H as [|? ? H1 H2]; subst.
+      apply IH in H1 as (A & B & C). rewrite Forall_app in H2. destruct H2 as [H2 H3].
+      split; [constructor; assumption|]. split; [assumption|].
+      intros a b [Ha|Ha] Hb.
+      * subst a. rewrite Forall_forall in H3. auto.
+      * auto.
+    + intros (A & B & C). inversion A as [|? ? A1 A2]; subst.
+      constructor.
+      * apply IH. split; [assumption|]. split; [assumption|]. intros; apply C; auto.
+      * rewrite Forall_app. split; [assumption|]. rewrite Forall_forall. intros b Hb. apply C; auto.
+Qed.
+
+Lemma sorted_cons x l : sorted (x :: l) <-> sorted l /\ (forall b, In b l -> nlt x b).
+Proof.
+  unfold sorted. split.
+  - intros H. inversion H; subst. rewrite Forall_forall in *. auto.
+  - intros [A B]. constructor; [assumption|]. rewrite Forall_forall. exact B.
+Qed.
+
+Lemma sorted_nil : sorted [].
+Proof. constructor. Qed.
+
+Lemma sorted_remove_mid A x B : sorted (A ++ x :: B) -> sorted (A ++ B).
+Proof.
+  rewrite !sorted_app, sorted_cons. intros (H1 & (H2 & H3) & H4).
+  split; [assumption|]. split; [assumption|]. intros a b Ha Hb. apply H4; cbn; auto.
+Qed.
+
+Lemma sorted_insert_mid A x B :
+  sorted (A ++ B) -> (forall a, In a A -> nlt a x) -> (forall b, In b B -> nlt x b) ->
+  sorted (A ++ x :: B).
+Proof.
+  rewrite !sorted_app, sorted_cons. intros (H1 & H2 & H3) Ha Hb.
+  split; [assumption|]. split; [split; assumption|].
+  intros a b HA [Hx|HB]; [subst; auto|auto].
+Qed.
+
+Lemma sorted_unique l a b :
+  sorted l -> In a l -> In b l -> nh a = nh b -> nk a = nk b -> a = b.
+Proof.
+  induction l as [|x l IH]; intros Hs Ha Hb Hh Hk; [destruct Ha|].
+  apply sorted_cons in Hs as [Hs Hx].
+  destruct Ha as [Ha|Ha], Hb as [Hb|Hb]; subst.
+  - reflexivity.
+  - apply Hx in Hb. unfold nlt in Hb. lia.
+  - apply Hx in Ha. unfold nlt in Ha. lia.
+  - auto.
+Qed.
+
+Lemma sorted_NoDup_keys l : sorted l -> NoDup (map (fun n => (nh n, nk n)) l).
+Proof.
+  induction l as [|x l IH]; intros Hs; cbn; [constructor|].
+  apply sorted_cons in Hs as [Hs Hx]. constructor; [|auto].
+  rewrite in_map_iff. intros (y & Hy & Hin). apply Hx in Hin.
+  injection Hy as H1 H2. unfold nlt in Hin. lia.
+Qed.
+
+Lemma sorted_NoDup l : sorted l -> NoDup l.
+Proof.
+  intros H. apply sorted_NoDup_keys in H. eapply NoDup_map_inv. exact H.
+Qed.
+
+(* ---------- ordered <-> sorted elems ---------- *)
+Definition lob (lo : option node) (x : node) : Prop :=
+  match lo with Some a => nlt a x | None => True end.
+Definition hib (hi : option node) (x : node) : Prop :=
+  match hi with Some b => nlt x b | None => True end.
+
+Lemma ordered_iff t : forall lo hi,
+  ordered t lo hi = true <->
+  sorted (t_elems t) /\ (forall x, In x (t_elems t) -> lob lo x /\ hib hi x).
+Proof.
+  induction t as [|c l IHl e r IHr]; intros lo hi; cbn [ordered t_elems].
+  - split; [intros _; split; [apply sorted_nil|intros x []]|reflexivity].
+  - rewrite !andb_true_iff, IHl, IHr, sorted_app, sorted_cons.
+    assert (Hlo : match lo with Some a => lt_node a e | None => true end = true <-> lob lo e).
+    { destruct lo; cbn; [apply lt_node_iff|tauto]. }
+    assert (Hhi : match hi with Some b => lt_node e b | None => true end = true <-> hib hi e).
+    { destruct hi; cbn; [apply lt_node_iff|tauto]. }
+    rewrite Hlo, Hhi. clear Hlo Hhi IHl IHr. cbn [lob hib].
+    split.
+    + intros (((Hlo & Hhi) & (Sl & Bl)) & (Sr & Br)).
+      split.
+      * split; [assumption|]. split; [split; [assumption|intros b Hb; apply Br; assumption]|].
+        intros a b Ha [Hb|Hb].
+        -- subst b. apply Bl; assumption.
+        -- eapply nlt_trans; [apply Bl; eassumption|apply Br; assumption].
+      * intros x Hx. apply in_app_or in Hx as [Hx|[Hx|Hx]].
+        -- split; [apply Bl; assumption|].
+           destruct hi as [b|]; cbn in *; [|exact I].
+           eapply nlt_trans; [apply Bl; eassumption|assumption].
+        -- subst x. split; assumption.
+        -- split; [|apply Br; assumption].
+           destruct lo as [a|]; cbn in *; [|exact I].
+           eapply nlt_trans; [eassumption|apply Br; assumption].
+    + intros ((Sl & (Sr & Hr) & Hlr) & B).
+      split; [split; [split|]|].
+      * apply (B e). apply in_or_app; right; left; reflexivity.
+      * apply (B e). apply in_or_app; right; left; reflexivity.
+      * split; [assumption|]. intros x Hx. split.
+        -- apply (B x). apply in_or_app; left; assumption.
+        -- apply Hlr; [assumption|left; reflexivity].
+      * split; [assumption|]. intros x Hx. split.
+        -- apply Hr; assumption.
+        -- apply (B x). apply in_or_app; right; right; assumption.
+Qed.
+
+Lemma ordered_sorted t : ordered t None None = true <-> sorted (t_elems t).
+Proof.
+  rewrite ordered_iff. cbn. split; [tauto|]. intros H; split; [assumption|auto].
+Qed.
+
+(* ---------- zippers: in-order listing ---------- *)
+Fixpoint pl (p : path) : list node :=
+  match p with
+  | [] => []
+  | f :: p' => pl p' ++ match fdir f with DL => [] | DR => t_elems (fsib f) ++ [fe f] end
+  end.
+Fixpoint pr (p : path) : list node :=
+  match p with
+  | [] => []
+  | f :: p' => match fdir f with DL => fe f :: t_elems (fsib f) | DR => [] end ++ pr p'
+  end.
+
+Ltac lnorm :=
+  repeat (rewrite <- app_assoc || rewrite <- app_comm_cons || rewrite app_nil_r
+          || rewrite app_nil_l); cbn [app].
+
+Lemma elems_plug p : forall x, t_elems (plug x p) = pl p ++ t_elems x ++ pr p.
+Proof.
+  induction p as [|[d c e s] p IH]; intros x; cbn [plug pl pr].
+  - cbn. rewrite app_nil_r. reflexivity.
+  - rewrite IH. unfold plug1. destruct d; cbn; lnorm; reflexivity.
+Qed.
+
+Lemma elems_blacken t : t_elems (blacken t) = t_elems t.
+Proof. destruct t; reflexivity. Qed.
+Lemma elems_top p t : t_elems (top p t) = t_elems t.
+Proof. destruct p; cbn; [apply elems_blacken|reflexivity]. Qed.
+
+Lemma pl_app p q : pl (p ++ q) = pl q ++ pl p.
+Proof. induction p as [|f p IH]; cbn; [rewrite app_nil_r; reflexivity|]. rewrite IH. lnorm. reflexivity. Qed.
+Lemma pr_app p q : pr (p ++ q) = pr p ++ pr q.
+Proof. induction p as [|f p IH]; cbn; [reflexivity|]. rewrite IH. lnorm. reflexivity. Qed.
+Lemma plug_app p q x : plug x (p ++ q) = plug (plug x p) q.
+Proof. revert x; induction p as [|f p IH]; intros x; cbn; [reflexivity|apply IH]. Qed.
+
+Lemma path_ind2 (P : path -> Prop) :
+  P [] -> (forall f, P [f]) -> (forall f1 f2 p, P p -> P (f1 :: f2 :: p)) -> forall p, P p.
+Proof.
+  intros H0 H1 H2. fix IH 1. intros [|f1 [|f2 p]].
+  - exact H0.
+  - apply H1.
+  - apply H2. apply IH.
+Qed.
+
+Lemma bal_ins_nil x : bal_ins x [] = blacken x.
+Proof. reflexivity. Qed.
+Lemma bal_ins_one x f : bal_ins x [f] = plug x [f].
+Proof. cbn. destruct (fred f); reflexivity. Qed.
+
+Lemma elems_bal_ins p : forall x, t_elems (bal_ins x p) = pl p ++ t_elems x ++ pr p.
+Proof.
+  induction p as [| f | [d1 c1 e1 s1] [d2 c2 e2 s2] p IH] using path_ind2; intros x.
+  - cbn. rewrite app_nil_r. apply elems_blacken.
+  - rewrite bal_ins_one. apply elems_plug.
+  - cbn [bal_ins fred fdir fsib fe negb].
+    destruct c1; cbn [negb]; [|apply elems_plug].
+    destruct d2; destruct (is_red s2) eqn:Hs2.
+    + rewrite IH. cbn [t_elems pl pr fdir fsib fe]. rewrite elems_blacken.
+      destruct d1; lnorm; reflexivity.
+    + destruct d1; [|destruct x as [|cx b xe c]]; rewrite ?elems_plug, ?elems_top;
+        cbn [t_elems pl pr fdir fsib fe]; lnorm; reflexivity.
+    + rewrite IH. cbn [t_elems pl pr fdir fsib fe]. rewrite elems_blacken.
+      destruct d1; lnorm; reflexivity.
+    + destruct d1; [destruct x as [|cx b xe c]|]; rewrite ?elems_plug, ?elems_top;
+        cbn [t_elems pl pr fdir fsib fe]; lnorm; reflexivity.
+Qed.
+
+(* ---------- locate ---------- *)
+Lemma locate_plug t : forall h k p0 s p, locate t h k p0 = (s, p) -> plug s p = plug t p0.
+Proof.
+  induction t as [|c l IHl e r IHr]; intros h k p0 s p H; cbn [locate] in H.
+  - injection H as <- <-. reflexivity.
+  - destruct (ncmp h k e).
+    + injection H as <- <-. reflexivity.
+    + apply IHl in H. rewrite H. reflexivity.
+    + apply IHr in H. rewrite H. reflexivity.
+Qed.
+
+Lemma locate_elems t : forall h k p0 s p,
+  locate t h k p0 = (s, p) -> sorted (t_elems t) ->
+  exists A B, t_elems t = A ++ t_elems s ++ B /\ pl p = pl p0 ++ A /\ pr p = B ++ pr p0 /\
+              (forall a, In a A -> nlt a (pk h k)) /\ (forall b, In b B -> nlt (pk h k) b).
+Proof.
+  induction t as [|c l IHl e r IHr]; intros h k p0 s p H Hs; cbn [locate] in H.
+  - injection H as <- <-. exists [], []. cbn. rewrite app_nil_r. repeat split; intros ? [].
+  - cbn [t_elems] in Hs. apply sorted_app in Hs as (Sl & Sr & Hlr).
+    apply sorted_cons in Sr as (Sr & Her).
+    pose proof (ncmp_spec h k e) as Hc. destruct (ncmp h k e).
+    + injection H as <- <-. exists [], []. cbn. rewrite !app_nil_r. repeat split; intros ? [].
+    + destruct (IHl _ _ _ _ _ H Sl) as (A & B & E1 & E2 & E3 & HA & HB).
+      exists A, (B ++ e :: t_elems r). cbn [t_elems]. rewrite E1, E2, E3. cbn [pl pr fdir fsib fe].
+      lnorm. repeat split; try assumption.
+      intros b Hb. apply in_app_or in Hb as [Hb|[Hb|Hb]]; [auto|subst; assumption|].
+      eapply nlt_trans; [exact Hc|auto].
+    + destruct (IHr _ _ _ _ _ H Sr) as (A & B & E1 & E2 & E3 & HA & HB).
+      exists (t_elems l ++ e :: A), B. cbn [t_elems]. rewrite E1, E2, E3. cbn [pl pr fdir fsib fe].
+      lnorm. repeat split; try assumption.
+      intros a Ha. apply in_app_or in Ha as [Ha|[Ha|Ha]]; [|subst; assumption|auto].
+      eapply nlt_trans; [|exact Hc]. apply Hlr; [assumption|left; reflexivity].
+Qed.
+
+Lemma locate_found t : forall h k p0 c l e r p,
+  locate t h k p0 = (T_ c l e r, p) -> nh e = h /\ nk e = k.
+Proof.
+  induction t as [|c0 l0 IHl e0 r0 IHr]; intros h k p0 c l e r p H; cbn [locate] in H.
+  - discriminate.
+  - pose proof (ncmp_spec h k e0) as Hc. destruct (ncmp h k e0); eauto.
+    injection H as <- <- <- <- <-. exact Hc.
+Qed.
+
+(* ---------- t_find ---------- *)
+Lemma find_none_intro (f : node -> bool) l : (forall a, In a l -> f a = false) -> find f l = None.
+Proof.
+  induction l as [|x l IH]; intros H; cbn; [reflexivity|].
+  rewrite (H x (or_introl eq_refl)). apply IH. intros a Ha. apply H. right; exact Ha.
+Qed.
+Lemma find_none_lt h k l : (forall a, In a l -> nlt a (pk h k)) -> find (matches h k) l = None.
+Proof.
+  intros H. apply find_none_intro. intros a Ha. apply H in Ha.
+  destruct (matches h k a) eqn:E; [|reflexivity]. apply matches_iff in E. unfold nlt, pk in Ha; cbn in Ha. lia.
+Qed.
+Lemma find_none_gt h k l : (forall a, In a l -> nlt (pk h k) a) -> find (matches h k) l = None.
+Proof.
+  intros H. apply find_none_intro. intros a Ha. apply H in Ha.
+  destruct (matches h k a) eqn:E; [|reflexivity]. apply matches_iff in E. unfold nlt, pk in Ha; cbn in Ha. lia.
+Qed.
+
+Lemma find_app' (f : node -> bool) l1 l2 :
+  find f (l1 ++ l2) = match find f l1 with Some x => Some x | None => find f l2 end.
+Proof. induction l1 as [|x l1 IH]; cbn; [reflexivity|]. destruct (f x); [reflexivity|exact IH]. Qed.
+
+Lemma t_find_sorted t h k : sorted (t_elems t) -> t_find t h k = find (matches h k) (t_elems t).
+Proof.
+  induction t as [|c l IHl e r IHr]; intros Hs; cbn [t_find t_elems]; [reflexivity|].
+  apply sorted_app in Hs as (Sl & Sr & Hlr). apply sorted_cons in Sr as (Sr & HR0).
+  assert (HR : forall b, In b (t_elems r) -> nlt e b) by exact HR0. clear HR0.
+  specialize (IHl Sl). specialize (IHr Sr).
+  assert (HL : forall a, In a (t_elems l) -> nlt a e) by (intros a Ha; apply Hlr; [assumption|left; reflexivity]).
+  clear Hlr Sl Sr.
+  rewrite find_app'. cbn [find]. rewrite IHl, IHr. clear IHl IHr.
+  remember (t_elems l) as L eqn:EL in *. remember (t_elems r) as R eqn:ER in *.
+  destruct (N.compare_spec (nh e) h) as [Hh|Hh|Hh].
+  - destruct (N.eqb_spec (nk e) k) as [Hk|Hk].
+    + assert (Hm : matches h k e = true) by (apply matches_iff; auto). rewrite Hm.
+      rewrite find_none_lt; [reflexivity|]. intros a Ha. apply HL in Ha.
+      unfold nlt, pk in *; cbn; lia.
+    + assert (Hm : matches h k e = false).
+      { destruct (matches h k e) eqn:E; [|reflexivity]. apply matches_iff in E. tauto. }
+      rewrite Hm.
+      destruct l as [|cl ll le lr].
+      { cbn in EL. subst L. reflexivity. }
+      destruct r as [|cr rl re rr].
+      { cbn in ER. subst R. cbn. destruct (find (matches h k) L); reflexivity. }
+      destruct (N.compare_spec (nk e) k) as [Hc|Hc|Hc].
+      * contradiction.
+      * rewrite (find_none_lt h k L); [reflexivity|].
+        intros a Ha. apply HL in Ha. unfold nlt, pk in *; cbn; lia.
+      * rewrite (find_none_gt h k R); [destruct (find (matches h k) L); reflexivity|].
+        intros a Ha. apply HR in Ha. unfold nlt, pk in *; cbn; lia.
+  - assert (Hm : matches h k e = false).
+    { destruct (matches h k e) eqn:E; [|reflexivity]. apply matches_iff in E. lia. }
+    rewrite Hm. rewrite (find_none_lt h k L); [reflexivity|].
+    intros a Ha. apply HL in Ha. unfold nlt, pk in *; cbn; lia.
+  - assert (Hm : matches h k e = false).
+    { destruct (matches h k e) eqn:E; [|reflexivity]. apply matches_iff in E. lia. }
+    rewrite Hm. rewrite (find_none_gt h k R); [destruct (find (matches h k) L); reflexivity|].
+    intros a Ha. apply HR in Ha. unfold nlt, pk in *; cbn; lia.
+Qed.
+
+(* goal 3 *)
+Theorem t_find_spec : forall t h k,
+  ordered t None None = true -> t_find t h k = find (matches h k) (t_elems t).
+Proof. intros t h k H. apply t_find_sorted. apply ordered_sorted. exact H. Qed.
+
+(* goal 6 *)
+Theorem t_find_cost_le : forall t h k, (t_find_cost t h k <= 2 * Z.of_nat (t_height t))%Z.
+Proof.
+  intros t h k. induction t as [|c l IHl e r IHr]; cbn [t_find_cost t_height]; [lia|].
+  destruct (N.compare (nh e) h); [|lia|lia].
+  destruct (nk e =? k); [lia|].
+  destruct l as [|cl ll le lr]; [lia|].
+  destruct r as [|cr rl re rr]; [lia|].
+  destruct (N.compare (nk e) k); lia.
+Qed.
+
+Lemma bheight_T c l e r n :
+  bheight (T_ c l e r) = Some n <->
+  exists a, bheight l = Some a /\ bheight r = Some a /\ n = if c then a else S a.
+Proof.
+  cbn [bheight]. destruct (bheight l) as [a|], (bheight r) as [b|].
+  - destruct (Nat.eqb_spec a b) as [E|E].
+    + subst b. split.
+      * intros H. injection H as <-. exists a. auto.
+      * intros (a' & H1 & _ & ->). injection H1 as <-. reflexivity.
+    + split; [discriminate|]. intros (a' & H1 & H2 & _). congruence.
+  - split; [discriminate|]. intros (a' & _ & H2 & _). discriminate.
+  - split; [discriminate|]. intros (a' & H1 & _). discriminate.
+  - split; [discriminate|]. intros (a' & H1 & _). discriminate.
+Qed.
+
+Lemma norr_T c l e r :
+  no_red_red (T_ c l e r) = true <->
+  (c = true -> is_red l = false /\ is_red r = false) /\ no_red_red l = true /\ no_red_red r = true.
+Proof.
+  cbn [no_red_red]. destruct c, (is_red l), (is_red r), (no_red_red l), (no_red_red r); cbn;
+    intuition congruence.
+Qed.
+
+Lemma bh_facts t : forall n, no_red_red t = true -> bheight t = Some n ->
+  (t_height t <= 2 * n + (if is_red t then 1 else 0))%nat /\ (2 ^ n <= t_size t + 1)%nat.
+Proof.
+  induction t as [|c l IHl e r IHr]; intros n Hrr Hbh.
+  - cbn in *. injection Hbh as <-. cbn. lia.
+  - apply bheight_T in Hbh as (a & Hl & Hr & ->). apply norr_T in Hrr as (Hc & Nl & Nr).
+    destruct (IHl a Nl Hl) as [H1 H2]. destruct (IHr a Nr Hr) as [H3 H4].
+    cbn [t_height t_size is_red]. destruct c.
+    + destruct (Hc eq_refl) as [E1 E2]. rewrite E1 in H1. rewrite E2 in H3. lia.
+    + rewrite Nat.pow_succ_r'. destruct (is_red l), (is_red r); lia.
+Qed.
+
+Lemma rb_b_iff t :
+  rb_b t = true <->
+  sorted (t_elems t) /\ is_red t = false /\ no_red_red t = true /\ exists n, bheight t = Some n.
+Proof.
+  unfold rb_b. rewrite !andb_true_iff, ordered_sorted, negb_true_iff.
+  destruct (bheight t) as [n|].
+  - split; [intros (((A & B) & C) & _); eauto 6|tauto].
+  - split; [intros (_ & H); discriminate|intros (_ & _ & _ & n & H); discriminate].
+Qed.
+
+Theorem rb_height : forall t, rb_b t = true ->
+  (2 ^ Z.of_nat (t_height t) <= (Z.of_nat (t_size t) + 1) ^ 2)%Z.
+Proof.
+  intros t H. apply rb_b_iff in H as (_ & Hr & Hn & n & Hb).
+  destruct (bh_facts t n Hn Hb) as [H1 H2]. rewrite Hr in H1.
+  assert (E1 : (2 ^ Z.of_nat (t_height t) <= 2 ^ (Z.of_nat n * 2))%Z) by (apply Z.pow_le_mono_r; lia).
+  rewrite Z.pow_mul_r in E1 by lia.
+  assert (E2 : (2 ^ Z.of_nat n <= Z.of_nat (t_size t) + 1)%Z).
+  { apply Nat2Z.inj_le in H2. rewrite Nat2Z.inj_pow in H2. rewrite Nat2Z.inj_add in H2. exact H2. }
+  eapply Z.le_trans; [exact E1|]. apply Z.pow_le_mono_l. split; [|exact E2].
+  apply Z.pow_nonneg. lia.
+Qed.
+
+(* ---------- colour / black-height invariants of a zipper ---------- *)
+Fixpoint PBH (p : path) (n m : nat) : Prop :=
+  match p with
+  | [] => n = m
+  | f :: p' => bheight (fsib f) = Some n /\ PBH p' (if fred f then n else S n) m
+  end.
+Fixpoint path_ok (xred : bool) (p : path) : Prop :=
+  match p with
+  | [] => True
+  | f :: p' => no_red_red (fsib f) = true /\
+               (fred f = true -> xred = false /\ is_red (fsib f) = false) /\
+               path_ok (fred f) p'
+  end.
+Fixpoint last_black (p : path) : bool :=
+  match p with
+  | [] => true
+  | f :: p' => match p' with [] => negb (fred f) | _ => last_black p' end
+  end.
+
+Definition good (t : tree) : Prop :=
+  no_red_red t = true /\ is_red t = false /\ exists m, bheight t = Some m.
+
+Lemma is_red_plug1 x f : is_red (plug1 x f) = fred f.
+Proof. unfold plug1. destruct (fdir f), (fred f); reflexivity. Qed.
+
+Lemma bheight_plug1 x f n' :
+  bheight (plug1 x f) = Some n' <->
+  exists n, bheight x = Some n /\ bheight (fsib f) = Some n /\ n' = if fred f then n else S n.
+Proof.
+  unfold plug1. destruct (fdir f); rewrite bheight_T; split; intros (a & H1 & H2 & H3); eauto.
+Qed.
+
+Lemma bheight_plug p : forall x m,
+  bheight (plug x p) = Some m <-> exists n, bheight x = Some n /\ PBH p n m.
+Proof.
+  induction p as [|f p IH]; intros x m; cbn [plug PBH].
+  - split; [intros H; eauto|intros (n & H & <-); exact H].
+  - rewrite IH. split.
+    + intros (n' & H1 & H2). apply bheight_plug1 in H1 as (n & Hx & Hs & ->). eauto.
+    + intros (n & Hx & Hs & H2). eexists. split; [|exact H2]. apply bheight_plug1. eauto.
+Qed.
+
+Lemma norr_plug1 x f :
+  no_red_red (plug1 x f) = true <->
+  no_red_red x = true /\ no_red_red (fsib f) = true /\
+  (fred f = true -> is_red x = false /\ is_red (fsib f) = false).
+Proof. unfold plug1. destruct (fdir f); rewrite norr_T; tauto. Qed.
+
+Lemma norr_plug p : forall x,
+  no_red_red (plug x p) = true <-> no_red_red x = true /\ path_ok (is_red x) p.
+Proof.
+  induction p as [|f p IH]; intros x; cbn [plug path_ok].
+  - tauto.
+  - rewrite IH, norr_plug1, is_red_plug1. tauto.
+Qed.
+
+Lemma is_red_plug p : forall x, p <> [] -> is_red (plug x p) = negb (last_black p).
+Proof.
+  induction p as [|f p IH]; intros x Hp; [congruence|].
+  cbn [plug last_black]. destruct p as [|g p].
+  - cbn [plug]. rewrite is_red_plug1, negb_involutive. reflexivity.
+  - apply IH. discriminate.
+Qed.
+
+Lemma path_ok_weaken b p : path_ok b p -> path_ok false p.
+Proof. destruct p as [|f p]; cbn; [tauto|]. intros (A & B & C). repeat split; auto. apply B; assumption. Qed.
+
+Lemma path_ok_black_first b f p : path_ok false (f :: p) -> fred f = false -> path_ok b (f :: p).
+Proof. cbn. intros (A & B & C) E. repeat split; auto; congruence. Qed.
+
+Lemma last_black_tail f p : last_black (f :: p) = true -> last_black p = true.
+Proof. destruct p; cbn; auto. Qed.
+
+Lemma last_black_one f : last_black [f] = true -> fred f = false.
+Proof. cbn. destruct (fred f); auto. Qed.
+
+Lemma is_red_blacken t : is_red (blacken t) = false.
+Proof. destruct t; reflexivity. Qed.
+Lemma norr_blacken t : no_red_red t = true -> no_red_red (blacken t) = true.
+Proof.
+  destruct t as [|c l e r]; [auto|]. cbn [blacken]. rewrite !norr_T. intros (_ & A & B).
+  repeat split; auto; discriminate.
+Qed.
+Lemma bheight_blacken t n :
+  bheight t = Some n -> bheight (blacken t) = Some (if is_red t then S n else n).
+Proof.
+  destruct t as [|c l e r]; [auto|]. cbn [blacken is_red]. rewrite !bheight_T.
+  intros (a & A & B & ->). exists a. destruct c; auto.
+Qed.
+Lemma blacken_black t : is_red t = false -> blacken t = t.
+Proof. destruct t as [|[] l e r]; cbn; congruence. Qed.
+
+Lemma good_blacken t n : no_red_red (blacken t) = true -> bheight t = Some n -> good (blacken t).
+Proof.
+  intros A B. split; [assumption|]. split; [apply is_red_blacken|].
+  eexists. apply bheight_blacken. exact B.
+Qed.
+
+Lemma plug_good p X n m :
+  bheight X = Some n -> no_red_red X = true -> PBH p n m -> path_ok (is_red X) p ->
+  last_black p = true -> (p = [] -> is_red X = false) -> good (plug X p).
+Proof.
+  intros HB HN HP HO HL HE. split; [apply norr_plug; auto|]. split.
+  - destruct p as [|f p]; [cbn; auto|]. rewrite is_red_plug by discriminate. rewrite HL. reflexivity.
+  - exists m. apply bheight_plug. eauto.
+Qed.
+
+Lemma plug_top_good p X n m :
+  bheight X = Some n -> no_red_red X = true -> PBH p n m -> path_ok (is_red X) p ->
+  last_black p = true -> good (plug (top p X) p).
+Proof.
+  intros HB HN HP HO HL. destruct p as [|f p].
+  - cbn [top plug]. eapply good_blacken; [apply norr_blacken|]; eassumption.
+  - cbn [top]. eapply plug_good; eauto. discriminate.
+Qed.
+
+Ltac rw_all := repeat match goal with H : _ = _ |- _ => rewrite H end.
+
+Ltac norr :=
+  rewrite ?norr_T; repeat match goal with |- _ /\ _ => split end;
+  try (let E := fresh in intros E; discriminate E); try (intros _; split);
+  auto using is_red_blacken, norr_blacken.
+
+Ltac bh :=
+  lazymatch goal with
+  | |- bheight (T_ _ _ _ _) = Some _ =>
+      rewrite bheight_T; eexists; split; [bh|split; [bh|try reflexivity]]
+  | |- bheight (blacken ?t) = Some _ =>
+      erewrite (bheight_blacken t) by eassumption;
+      match goal with H : is_red t = _ |- _ => rewrite H end; reflexivity
+  | |- _ => eassumption
+  end.
+
+(* ---------- balance_insertion ---------- *)
+Lemma bal_ins_good p : forall x n m,
+  is_red x = true -> no_red_red x = true -> bheight x = Some n ->
+  PBH p n m -> path_ok false p -> last_black p = true -> good (bal_ins x p).
+Proof.
+  induction p as [| f | [d1 c1 e1 s1] [d2 c2 e2 s2] p IH] using path_ind2;
+    intros x n m Hr Hn Hb HP HO HL.
+  - rewrite bal_ins_nil. eapply good_blacken; [apply norr_blacken|]; eassumption.
+  - rewrite bal_ins_one. pose proof (last_black_one _ HL) as HL1.
+    eapply plug_good; eauto; try (intros E; discriminate E); apply path_ok_black_first; assumption.
+  - cbn [bal_ins fred fdir fsib fe].
+    destruct c1; cbn [negb].
+    2:{ eapply plug_good; eauto; try (intros E; discriminate E); apply path_ok_black_first; auto. }
+    cbn [path_ok fred fsib] in HO. destruct HO as (Ns1 & Hc1 & Ns2 & Hc2 & HO).
+    destruct (Hc1 eq_refl) as [_ Rs1]. clear Hc1.
+    destruct c2; [destruct (Hc2 eq_refl) as [E _]; discriminate E|]. clear Hc2.
+    cbn [PBH fred fsib] in HP. destruct HP as (Bs1 & Bs2 & HP).
+    apply last_black_tail, last_black_tail in HL.
+    destruct d2; destruct (is_red s2) eqn:Rs2.
+    + (* uncle red, left *)
+      eapply (IH _ (S n) m); try assumption; [reflexivity| |].
+      * destruct d1; norr.
+      * destruct d1; bh.
+    + destruct d1.
+      * eapply (plug_top_good p _ (S n) m); try assumption; [bh|norr].
+      * destruct x as [|cx b xe c]; [discriminate|]. destruct cx; [clear Hr|discriminate Hr].
+        apply bheight_T in Hb as (a & Bb & Bc & ->).
+        apply norr_T in Hn as (Hcx & Nb & Nc). destruct (Hcx eq_refl) as [Rb Rc].
+        eapply (plug_top_good p _ (S a) m); try assumption; [bh|norr].
+    + (* uncle red, right *)
+      eapply (IH _ (S n) m); try assumption; [reflexivity| |].
+      * destruct d1; norr.
+      * destruct d1; bh.
+    + destruct d1.
+      * destruct x as [|cx b xe c]; [discriminate|]. destruct cx; [clear Hr|discriminate Hr].
+        apply bheight_T in Hb as (a & Bb & Bc & ->).
+        apply norr_T in Hn as (Hcx & Nb & Nc). destruct (Hcx eq_refl) as [Rb Rc].
+        eapply (plug_top_good p _ (S a) m); try assumption; [bh|norr].
+      * eapply (plug_top_good p _ (S n) m); try assumption; [bh|norr].
+Qed.
+
+Lemma rb_good t : rb_b t = true <-> sorted (t_elems t) /\ good t.
+Proof. rewrite rb_b_iff. unfold good. tauto. Qed.
+
+Definition absent (h k : N) (l : list node) : Prop :=
+  forall a, In a l -> ~ (nh a = h /\ nk a = k).
+
+Lemma find_absent h k l : find (matches h k) l = None <-> absent h k l.
+Proof.
+  split.
+  - intros H a Ha E. apply (find_none _ _ H) in Ha. apply matches_iff in E. congruence.
+  - intros H. apply find_none_intro. intros a Ha. destruct (matches h k a) eqn:E; [|reflexivity].
+    apply matches_iff in E. destruct (H a Ha E).
+Qed.
+
+Lemma t_find_absent t h k :
+  ordered t None None = true -> (t_find t h k = None <-> absent h k (t_elems t)).
+Proof. intros H. rewrite t_find_spec by assumption. apply find_absent. Qed.
+
+Lemma locate_in t h k c l e r p :
+  locate t h k [] = (T_ c l e r, p) -> In e (t_elems t) /\ nh e = h /\ nk e = k.
+Proof.
+  intros H. split; [|eapply locate_found; eassumption].
+  apply locate_plug in H. cbn [plug] in H. rewrite <- H, elems_plug. cbn [t_elems].
+  apply in_or_app; right. apply in_or_app; left. apply in_or_app; right. left. reflexivity.
+Qed.
+
+Lemma locate_absent t h k s p :
+  locate t h k [] = (s, p) -> absent h k (t_elems t) -> s = L_.
+Proof.
+  intros H Ha. destruct s as [|c l e r]; [reflexivity|].
+  apply locate_in in H as (Hi & Hk). destruct (Ha e Hi Hk).
+Qed.
+
+(* facts about a located focus inside a red-black tree *)
+Lemma focus_facts t s p m :
+  plug s p = t -> no_red_red t = true -> is_red t = false -> bheight t = Some m ->
+  no_red_red s = true /\ path_ok (is_red s) p /\ (exists n, bheight s = Some n /\ PBH p n m) /\
+  last_black p = true /\ (p = [] -> is_red s = false).
+Proof.
+  intros <- Hn Hr Hb. apply norr_plug in Hn as [N1 N2]. apply bheight_plug in Hb.
+  repeat split; try assumption.
+  - destruct p as [|f p]; [reflexivity|]. rewrite is_red_plug in Hr by discriminate.
+    apply negb_false_iff in Hr. exact Hr.
+  - intros ->. exact Hr.
+Qed.
+
+Lemma t_insert_facts t e :
+  rb_b t = true -> absent (nh e) (nk e) (t_elems t) ->
+  good (t_insert t e) /\
+  exists A B, t_elems t = A ++ B /\ t_elems (t_insert t e) = A ++ e :: B /\
+              (forall a, In a A -> nlt a e) /\ (forall b, In b B -> nlt e b).
+Proof.
+  intros Hrb Habs. apply rb_good in Hrb as (Hs & Hn & Hr & m & Hb).
+  destruct t as [|c l e0 r].
+  - cbn [t_insert]. split.
+    + unfold good. cbn. eauto.
+    + exists [], []. cbn. repeat split; intros ? [].
+  - unfold t_insert. destruct (locate (T_ c l e0 r) (nh e) (nk e) []) as [s p] eqn:HL.
+    pose proof (locate_absent _ _ _ _ _ HL Habs) as ->.
+    pose proof (locate_plug _ _ _ _ _ _ HL) as HP. cbn [plug] in HP.
+    destruct (locate_elems _ _ _ _ _ _ HL Hs) as (A & B & E1 & E2 & E3 & HA & HB).
+    cbn [t_elems pl pr] in E1, E2, E3. rewrite app_nil_r in E3. cbn [app] in E1, E2.
+    destruct (focus_facts _ _ _ _ HP Hn Hr Hb) as (_ & F2 & (n & F3 & F4) & F5 & _).
+    cbn in F3. injection F3 as <-.
+    split.
+    + eapply (bal_ins_good p _ 0%nat m); try assumption; reflexivity.
+    + exists A, B. rewrite elems_bal_ins, E2, E3. cbn [t_elems app]. repeat split; assumption.
+Qed.
+
+(* goal 1 *)
+Theorem t_insert_rb : forall t e,
+  rb_b t = true -> t_find t (nh e) (nk e) = None -> rb_b (t_insert t e) = true.
+Proof.
+  intros t e Hrb Hf. pose proof Hrb as Hrb'. apply rb_good in Hrb' as (Hs & _).
+  apply t_find_absent in Hf; [|apply ordered_sorted; assumption].
+  destruct (t_insert_facts t e Hrb Hf) as (G & A & B & E1 & E2 & HA & HB).
+  apply rb_good. split; [|assumption]. rewrite E2. apply sorted_insert_mid; [rewrite <- E1|..]; assumption.
+Qed.
+
+Theorem t_insert_elems : forall t e,
+  rb_b t = true -> t_find t (nh e) (nk e) = None ->
+  Permutation (t_elems (t_insert t e)) (e :: t_elems t).
+Proof.
+  intros t e Hrb Hf. pose proof Hrb as Hrb'. apply rb_good in Hrb' as (Hs & _).
+  apply t_find_absent in Hf; [|apply ordered_sorted; assumption].
+  destruct (t_insert_facts t e Hrb Hf) as (G & A & B & E1 & E2 & HA & HB).
+  rewrite E1, E2. symmetry. apply Permutation_middle.
+Qed.
+
+(* goal 2 *)
+Lemma t_new_gen l : forall t,
+  rb_b t = true -> NoDup (map (fun n => (nh n, nk n)) l) ->
+  (forall a b, In a (t_elems t) -> In b l -> ~ (nh a = nh b /\ nk a = nk b)) ->
+  rb_b (fold_left t_insert l t) = true /\ Permutation (t_elems (fold_left t_insert l t)) (t_elems t ++ l).
+Proof.
+  induction l as [|e l IH]; intros t Hrb Hnd Hx; cbn [fold_left].
+  - split; [assumption|]. rewrite app_nil_r. apply Permutation_refl.
+  - cbn [map] in Hnd. inversion Hnd as [|? ? Hni Hnd']; subst.
+    assert (Hf : t_find t (nh e) (nk e) = None).
+    { apply t_find_absent.
+      - apply rb_good in Hrb as (Hs & _). apply ordered_sorted. assumption.
+      - intros a Ha. apply Hx; [assumption|left; reflexivity]. }
+    pose proof (t_insert_rb t e Hrb Hf) as Hrb1. pose proof (t_insert_elems t e Hrb Hf) as Hp1.
+    destruct (IH (t_insert t e) Hrb1 Hnd') as [R1 R2].
+    + intros a b Ha Hb. eapply Permutation_in in Ha; [|exact Hp1]. destruct Ha as [<-|Ha].
+      * intros [E1 E2]. apply Hni. apply in_map_iff. exists b. split; [|assumption]. congruence.
+      * apply Hx; [assumption|right; assumption].
+    + split; [assumption|]. eapply Permutation_trans; [exact R2|].
+      eapply Permutation_trans; [apply Permutation_app_tail; exact Hp1|].
+      cbn [app]. apply Permutation_middle.
+Qed.
+
+Theorem t_new_rb : forall l,
+  NoDup (map (fun n => (nh n, nk n)) l) ->
+  rb_b (t_new l) = true /\ Permutation (t_elems (t_new l)) l.
+Proof.
+  intros l H. destruct (t_new_gen l L_ eq_refl H) as [A B].
+  - intros a b [].
+  - split; assumption.
+Qed.
+
+(* ---------- balance_deletion: in-order listing ---------- *)
+Lemma elems_del_left x c e sib rest :
+  match del_left x c e sib rest with
+  | Done t => t_elems t = pl rest ++ (t_elems x ++ e :: t_elems sib) ++ pr rest
+  | Up x' => t_elems x' = t_elems x ++ e :: t_elems sib
+  end.
+Proof.
+  destruct sib as [|sc sl se sr]; cbn [del_left]; [reflexivity|].
+  destruct (is_red sr), (is_red sl); cbn [negb andb].
+  - rewrite elems_plug, elems_top. cbn [t_elems]. rewrite elems_blacken. lnorm. reflexivity.
+  - rewrite elems_plug, elems_top. cbn [t_elems]. rewrite elems_blacken. lnorm. reflexivity.
+  - destruct sl as [|slc sll sle slr]; rewrite elems_plug, ?elems_top; cbn [t_elems]; lnorm; reflexivity.
+  - reflexivity.
+Qed.
+
+Lemma elems_del_right x c e sib rest :
+  match del_right x c e sib rest with
+  | Done t => t_elems t = pl rest ++ (t_elems sib ++ e :: t_elems x) ++ pr rest
+  | Up x' => t_elems x' = t_elems sib ++ e :: t_elems x
+  end.
+Proof.
+  destruct sib as [|sc sl se sr]; cbn [del_right]; [reflexivity|].
+  destruct (is_red sl), (is_red sr); cbn [negb andb].
+  - rewrite elems_plug, elems_top. cbn [t_elems]. rewrite elems_blacken. lnorm. reflexivity.
+  - rewrite elems_plug, elems_top. cbn [t_elems]. rewrite elems_blacken. lnorm. reflexivity.
+  - destruct sr as [|src srl sre srr]; rewrite elems_plug, ?elems_top; cbn [t_elems]; lnorm; reflexivity.
+  - reflexivity.
+Qed.
+
+Lemma elems_bal_del p : forall xr x, t_elems (bal_del xr x p) = pl p ++ t_elems x ++ pr p.
+Proof.
+  induction p as [|[d1 c1 e1 s1] rest IH]; intros xr x.
+  - cbn. rewrite app_nil_r. reflexivity.
+  - cbn [bal_del fdir fsib fred fe]. destruct xr.
+    { rewrite elems_plug, elems_blacken. reflexivity. }
+    destruct d1.
+    + destruct s1 as [|[|] sl se sr].
+      * pose proof (elems_del_left x c1 e1 L_ rest) as H.
+        destruct (del_left x c1 e1 L_ rest) as [t|x'].
+        -- rewrite H. cbn [pl pr fdir fsib fe t_elems]. lnorm. reflexivity.
+        -- rewrite IH, H. cbn [pl pr fdir fsib fe t_elems]. lnorm. reflexivity.
+      * pose proof (elems_del_left x true e1 sl (F_ DL false se sr :: rest)) as H.
+        destruct (del_left x true e1 sl (F_ DL false se sr :: rest)) as [t|x'].
+        -- rewrite H. cbn [pl pr fdir fsib fe t_elems]. lnorm. reflexivity.
+        -- rewrite elems_plug, elems_blacken, H. cbn [pl pr fdir fsib fe t_elems]. lnorm. reflexivity.
+      * pose proof (elems_del_left x c1 e1 (T_ false sl se sr) rest) as H.
+        destruct (del_left x c1 e1 (T_ false sl se sr) rest) as [t|x'].
+        -- rewrite H. cbn [pl pr fdir fsib fe t_elems]. lnorm. reflexivity.
+        -- rewrite IH, H. cbn [pl pr fdir fsib fe t_elems]. lnorm. reflexivity.
+    + destruct s1 as [|[|] sl se sr].
+      * pose proof (elems_del_right x c1 e1 L_ rest) as H.
+        destruct (del_right x c1 e1 L_ rest) as [t|x'].
+        -- rewrite H. cbn [pl pr fdir fsib fe t_elems]. lnorm. reflexivity.
+        -- rewrite IH, H. cbn [pl pr fdir fsib fe t_elems]. lnorm. reflexivity.
+      * pose proof (elems_del_right x true e1 sr (F_ DR false se sl :: rest)) as H.
+        destruct (del_right x true e1 sr (F_ DR false se sl :: rest)) as [t|x'].
+        -- rewrite H. cbn [pl pr fdir fsib fe t_elems]. lnorm. reflexivity.
+        -- rewrite elems_plug, elems_blacken, H. cbn [pl pr fdir fsib fe t_elems]. lnorm. reflexivity.
+      * pose proof (elems_del_right x c1 e1 (T_ false sl se sr) rest) as H.
+        destruct (del_right x c1 e1 (T_ false sl se sr) rest) as [t|x'].
+        -- rewrite H. cbn [pl pr fdir fsib fe t_elems]. lnorm. reflexivity.
+        -- rewrite IH, H. cbn [pl pr fdir fsib fe t_elems]. lnorm. reflexivity.
+Qed.
+
+(* ---------- leftmost ---------- *)
+Lemma leftmost_spec t : forall p0 sc se sr sp,
+  leftmost t p0 = Some (sc, se, sr, sp) ->
+  plug (T_ sc L_ se sr) sp = plug t p0 /\ pl sp = pl p0.
+Proof.
+  induction t as [|c l IHl e r _]; intros p0 sc se sr sp H; cbn [leftmost] in H; [discriminate|].
+  destruct l as [|lc ll le lr].
+  - injection H as <- <- <- <-. split; reflexivity.
+  - apply IHl in H as [H1 H2]. split.
+    + rewrite H1. reflexivity.
+    + rewrite H2. cbn [pl fdir]. apply app_nil_r.
+Qed.
+
+Lemma leftmost_T t : forall p, t <> L_ -> leftmost t p <> None.
+Proof.
+  induction t as [|c l IHl e r _]; intros p H; [congruence|]. cbn [leftmost].
+  destruct l as [|lc ll le lr]; [discriminate|]. apply IHl. discriminate.
+Qed.
+
+Lemma del_one_eq (sr : tree) (sc : bool) (hp : path) :
+  match sr with
+  | T_ _ _ _ _ => if sc then plug sr hp else bal_del (is_red sr) sr hp
+  | L_ => if sc then plug L_ hp else bal_del false L_ hp
+  end = if sc then plug sr hp else bal_del (is_red sr) sr hp.
+Proof. destruct sr; reflexivity. Qed.
+
+Lemma t_delete_at_elems c l r p :
+  t_elems (t_delete_at c l r p) = pl p ++ t_elems l ++ t_elems r ++ pr p.
+Proof.
+  unfold t_delete_at.
+  destruct l as [|lc ll le lr], r as [|rc rl re rr].
+  - destruct c; rewrite ?elems_plug, ?elems_bal_del; reflexivity.
+  - destruct c; rewrite ?elems_plug, ?elems_bal_del; reflexivity.
+  - destruct c; rewrite ?elems_plug, ?elems_bal_del; lnorm; reflexivity.
+  - destruct (leftmost (T_ rc rl re rr) []) as [[[[sc se] sr] sp]|] eqn:HL.
+    2:{ exfalso. revert HL. apply leftmost_T. discriminate. }
+    apply leftmost_spec in HL as [H1 H2]. cbn [plug pl] in H1, H2.
+    rewrite <- H1. rewrite (elems_plug sp). rewrite H2. cbn [app].
+    assert (E : t_elems (if sc then plug sr (sp ++ F_ DR c se (T_ lc ll le lr) :: p)
+                          else bal_del (is_red sr) sr (sp ++ F_ DR c se (T_ lc ll le lr) :: p)) =
+                pl (sp ++ F_ DR c se (T_ lc ll le lr) :: p) ++ t_elems sr ++
+                pr (sp ++ F_ DR c se (T_ lc ll le lr) :: p)).
+    { destruct sc; [apply elems_plug|apply elems_bal_del]. }
+    cbv zeta. rewrite del_one_eq, E, pl_app, pr_app. cbn [pl pr fdir fsib fe]. rewrite H2.
+    lnorm. reflexivity.
+Qed.
+
+(* ---------- balance_deletion: colours and black heights ---------- *)
+Definition up_ok (xpred : bool) (n : nat) (x' : tree) : Prop :=
+  bheight x' = Some (if xpred then n else S n) /\ no_red_red (blacken x') = true /\
+  is_red x' = xpred.
+
+Lemma del_left_good (x : tree) (xpred : bool) (xpe : node) (sib : tree) (rest : path) (n m : nat) :
+  bheight x = Some n -> no_red_red x = true -> is_red x = false ->
+  bheight sib = Some (S n) -> no_red_red sib = true -> is_red sib = false ->
+  PBH rest (if xpred then S n else S (S n)) m -> path_ok xpred rest -> last_black rest = true ->
+  match del_left x xpred xpe sib rest with
+  | Done t => good t
+  | Up x' => up_ok xpred n x'
+  end.
+Proof.
+  intros Bx Nx Rx Bs Ns Rs HP HO HL.
+  destruct sib as [|sc sl se sr]; [discriminate Bs|].
+  destruct sc; [discriminate Rs|]. clear Rs.
+  apply bheight_T in Bs as (a & Bsl & Bsr & Ea). injection Ea as <-.
+  apply norr_T in Ns as (_ & Nsl & Nsr).
+  cbn [del_left].
+  destruct (is_red sr) eqn:Rsr, (is_red sl) eqn:Rsl; cbn [negb andb].
+  - destruct xpred; eapply plug_top_good; try eassumption; [bh|norr|bh|norr].
+  - destruct xpred; eapply plug_top_good; try eassumption; [bh|norr|bh|norr].
+  - destruct sl as [|slc sll sle slr]; [discriminate Rsl|].
+    destruct slc; [clear Rsl|discriminate Rsl].
+    apply bheight_T in Bsl as (b & Bsll & Bslr & ->).
+    apply norr_T in Nsl as (Hc & Nsll & Nslr). destruct (Hc eq_refl) as [Rsll Rslr].
+    destruct xpred; eapply plug_top_good; try eassumption; [bh|norr|bh|norr].
+  - unfold up_ok. destruct xpred; cbn [blacken is_red]; (split; [bh|split; [norr|reflexivity]]).
+Qed.
+
+Lemma del_right_good (x : tree) (xpred : bool) (xpe : node) (sib : tree) (rest : path) (n m : nat) :
+  bheight x = Some n -> no_red_red x = true -> is_red x = false ->
+  bheight sib = Some (S n) -> no_red_red sib = true -> is_red sib = false ->
+  PBH rest (if xpred then S n else S (S n)) m -> path_ok xpred rest -> last_black rest = true ->
+  match del_right x xpred xpe sib rest with
+  | Done t => good t
+  | Up x' => up_ok xpred n x'
+  end.
+Proof.
+  intros Bx Nx Rx Bs Ns Rs HP HO HL.
+  destruct sib as [|sc sl se sr]; [discriminate Bs|].
+  destruct sc; [discriminate Rs|]. clear Rs.
+  apply bheight_T in Bs as (a & Bsl & Bsr & Ea). injection Ea as <-.
+  apply norr_T in Ns as (_ & Nsl & Nsr).
+  cbn [del_right].
+  destruct (is_red sl) eqn:Rsl, (is_red sr) eqn:Rsr; cbn [negb andb].
+  - destruct xpred; eapply plug_top_good; try eassumption; [bh|norr|bh|norr].
+  - destruct xpred; eapply plug_top_good; try eassumption; [bh|norr|bh|norr].
+  - destruct sr as [|src srl sre srr]; [discriminate Rsr|].
+    destruct src; [clear Rsr|discriminate Rsr].
+    apply bheight_T in Bsr as (b & Bsrl & Bsrr & ->).
+    apply norr_T in Nsr as (Hc & Nsrl & Nsrr). destruct (Hc eq_refl) as [Rsrl Rsrr].
+    destruct xpred; eapply plug_top_good; try eassumption; [bh|norr|bh|norr].
+  - unfold up_ok. destruct xpred; cbn [blacken is_red]; (split; [bh|split; [norr|reflexivity]]).
+Qed.
+
+Lemma bal_del_good p : forall x n m,
+  bheight x = Some n -> no_red_red (blacken x) = true -> PBH p (S n) m -> path_ok false p ->
+  last_black p = true -> (p = [] -> is_red x = false) -> good (bal_del (is_red x) x p).
+Proof.
+  induction p as [|[d1 c1 e1 s1] rest IH]; intros x n m Bx Nx HP HO HL HE.
+  - cbn [bal_del]. specialize (HE eq_refl). rewrite (blacken_black _ HE) in Nx.
+    unfold good. eauto.
+  - cbn [bal_del]. destruct (is_red x) eqn:Rx.
+    { eapply (plug_good _ _ (S n) m); try eassumption.
+      - rewrite (bheight_blacken _ _ Bx), Rx. reflexivity.
+      - rewrite is_red_blacken. assumption.
+      - intros E; discriminate E. }
+    rewrite (blacken_black _ Rx) in Nx.
+    cbn [PBH fsib fred] in HP. destruct HP as (Bs1 & HP).
+    cbn [path_ok fsib fred] in HO. destruct HO as (Ns1 & Hc1 & HO).
+    pose proof (last_black_tail _ _ HL) as HL'.
+    cbn [fdir fsib fred fe]. destruct d1.
+    + destruct s1 as [|[|] sl se sr]; [discriminate Bs1| |].
+      * (* red sibling *)
+        destruct c1; [destruct (Hc1 eq_refl) as [_ E]; discriminate E|]. clear Hc1.
+        apply bheight_T in Bs1 as (a & Bsl & Bsr & Ea). subst a.
+        apply norr_T in Ns1 as (Hc & Nsl & Nsr). destruct (Hc eq_refl) as [Rsl Rsr]. clear Hc.
+        assert (HP' : PBH (F_ DL false se sr :: rest) (S n) m) by (cbn; auto).
+        assert (HO' : path_ok true (F_ DL false se sr :: rest)).
+        { cbn. repeat split; auto; intros E; discriminate E. }
+        assert (HL2 : last_black (F_ DL false se sr :: rest) = true).
+        { destruct rest; [reflexivity|exact HL']. }
+        pose proof (del_left_good x true e1 sl (F_ DL false se sr :: rest) n m
+                      Bx Nx Rx Bsl Nsl Rsl HP' HO' HL2) as H.
+        destruct (del_left x true e1 sl (F_ DL false se sr :: rest)) as [t|x']; [exact H|].
+        destruct H as (B' & N' & R').
+        eapply (plug_good _ _ (S n) m); try eassumption.
+        -- rewrite (bheight_blacken _ _ B'), R'. reflexivity.
+        -- rewrite is_red_blacken. apply (path_ok_weaken _ _ HO').
+        -- intros E; discriminate E.
+      * (* black sibling *)
+        assert (HO1 : path_ok c1 rest) by exact HO.
+        pose proof (del_left_good x c1 e1 (T_ false sl se sr) rest n m
+                      Bx Nx Rx Bs1 Ns1 eq_refl HP HO1 HL') as H.
+        destruct (del_left x c1 e1 (T_ false sl se sr) rest) as [t|x']; [exact H|].
+        destruct H as (B' & N' & R').
+        eapply (IH x' _ m); try eassumption.
+        -- destruct c1; exact HP.
+        -- apply (path_ok_weaken _ _ HO1).
+        -- intros ->. rewrite R'. apply last_black_one in HL. exact HL.
+    + destruct s1 as [|[|] sl se sr]; [discriminate Bs1| |].
+      * destruct c1; [destruct (Hc1 eq_refl) as [_ E]; discriminate E|]. clear Hc1.
+        apply bheight_T in Bs1 as (a & Bsl & Bsr & Ea). subst a.
+        apply norr_T in Ns1 as (Hc & Nsl & Nsr). destruct (Hc eq_refl) as [Rsl Rsr]. clear Hc.
+        assert (HP' : PBH (F_ DR false se sl :: rest) (S n) m) by (cbn; auto).
+        assert (HO' : path_ok true (F_ DR false se sl :: rest)).
+        { cbn. repeat split; auto; intros E; discriminate E. }
+        assert (HL2 : last_black (F_ DR false se sl :: rest) = true).
+        { destruct rest; [reflexivity|exact HL']. }
+        pose proof (del_right_good x true e1 sr (F_ DR false se sl :: rest) n m
+                      Bx Nx Rx Bsr Nsr Rsr HP' HO' HL2) as H.
+        destruct (del_right x true e1 sr (F_ DR false se sl :: rest)) as [t|x']; [exact H|].
+        destruct H as (B' & N' & R').
+        eapply (plug_good _ _ (S n) m); try eassumption.
+        -- rewrite (bheight_blacken _ _ B'), R'. reflexivity.
+        -- rewrite is_red_blacken. apply (path_ok_weaken _ _ HO').
+        -- intros E; discriminate E.
+      * assert (HO1 : path_ok c1 rest) by exact HO.
+        pose proof (del_right_good x c1 e1 (T_ false sl se sr) rest n m
+                      Bx Nx Rx Bs1 Ns1 eq_refl HP HO1 HL') as H.
+        destruct (del_right x c1 e1 (T_ false sl se sr) rest) as [t|x']; [exact H|].
+        destruct H as (B' & N' & R').
+        eapply (IH x' _ m); try eassumption.
+        -- destruct c1; exact HP.
+        -- apply (path_ok_weaken _ _ HO1).
+        -- intros ->. rewrite R'. apply last_black_one in HL. exact HL.
+Qed.
+
+Lemma is_red_T c l e r : is_red (T_ c l e r) = c.
+Proof. destruct c; reflexivity. Qed.
+
+(* removing a node that has at most one child [ch] (the other one is a leaf) *)
+Lemma delete_one_good (ch : tree) (dc : bool) (q : path) (m : nat) :
+  no_red_red ch = true -> bheight ch = Some 0%nat -> (dc = true -> is_red ch = false) ->
+  path_ok dc q -> PBH q (if dc then 0 else 1)%nat m -> last_black q = true ->
+  (q = [] -> dc = false /\ is_red ch = false) ->
+  good (if dc then plug ch q else bal_del (is_red ch) ch q).
+Proof.
+  intros Nc Bc Rc HO HP HL HE. destruct dc.
+  - specialize (Rc eq_refl). eapply (plug_good _ _ 0%nat m); try eassumption.
+    + rewrite Rc. apply (path_ok_weaken _ _ HO).
+    + intros _. exact Rc.
+  - eapply (bal_del_good _ _ 0%nat m); try eassumption.
+    + apply norr_blacken. exact Nc.
+    + intros E. apply HE. exact E.
+Qed.
+
+(* the invariants of a path do not depend on the entries stored in its frames *)
+Lemma PBH_entry sp d c e e' s p : forall n m,
+  PBH (sp ++ F_ d c e s :: p) n m <-> PBH (sp ++ F_ d c e' s :: p) n m.
+Proof. induction sp as [|f sp IH]; intros n m; cbn; [tauto|]. rewrite IH. tauto. Qed.
+
+Lemma path_ok_entry sp d c e e' s p : forall b,
+  path_ok b (sp ++ F_ d c e s :: p) <-> path_ok b (sp ++ F_ d c e' s :: p).
+Proof. induction sp as [|f sp IH]; intros b; cbn; [tauto|]. rewrite IH. tauto. Qed.
+
+Lemma last_black_cons f p : p <> [] -> last_black (f :: p) = last_black p.
+Proof. destruct p; [congruence|reflexivity]. Qed.
+
+Lemma last_black_entry sp d c e e' s p :
+  last_black (sp ++ F_ d c e s :: p) = last_black (sp ++ F_ d c e' s :: p).
+Proof.
+  induction sp as [|f sp IH]; cbn [app].
+  - reflexivity.
+  - rewrite !last_black_cons by (intros E; apply app_eq_nil in E as [_ E]; discriminate E).
+    exact IH.
+Qed.
+
+Lemma t_delete_at_good c l e r p m :
+  no_red_red (plug (T_ c l e r) p) = true -> is_red (plug (T_ c l e r) p) = false ->
+  bheight (plug (T_ c l e r) p) = Some m -> (p = [] -> l <> L_ /\ r <> L_) ->
+  good (t_delete_at c l r p).
+Proof.
+  intros Hn Hr Hb Hp.
+  unfold t_delete_at.
+  destruct l as [|lc ll le lr], r as [|rc rl re rr].
+  - (* no child *)
+    destruct (focus_facts _ _ _ _ eq_refl Hn Hr Hb) as (F1 & F2 & (n & F3 & F4) & F5 & F6).
+    rewrite is_red_T in F2, F6.
+    apply bheight_T in F3 as (a & Ba & _ & ->). cbn in Ba. injection Ba as <-.
+    apply (delete_one_good L_ c p m); try assumption; try reflexivity.
+    intros E. destruct (Hp E) as [E1 _]. congruence.
+  - destruct (focus_facts _ _ _ _ eq_refl Hn Hr Hb) as (F1 & F2 & (n & F3 & F4) & F5 & F6).
+    rewrite is_red_T in F2, F6.
+    apply bheight_T in F3 as (a & Ba & Br & ->). cbn in Ba. injection Ba as <-.
+    apply norr_T in F1 as (Hc & _ & Nr).
+    apply (delete_one_good (T_ rc rl re rr) c p m); try assumption.
+    + intros E. apply (Hc E).
+    + intros E. destruct (Hp E) as [E1 _]. congruence.
+  - destruct (focus_facts _ _ _ _ eq_refl Hn Hr Hb) as (F1 & F2 & (n & F3 & F4) & F5 & F6).
+    rewrite is_red_T in F2, F6.
+    apply bheight_T in F3 as (a & Bl & Ba & ->). cbn in Ba. injection Ba as <-.
+    apply norr_T in F1 as (Hc & Nl & _).
+    apply (delete_one_good (T_ lc ll le lr) c p m); try assumption.
+    + intros E. apply (Hc E).
+    + intros E. destruct (Hp E) as [_ E1]. congruence.
+  - (* two children: the successor takes the place of the removed entry *)
+    destruct (leftmost (T_ rc rl re rr) []) as [[[[sc se] sr] sp]|] eqn:HLm.
+    2:{ exfalso. revert HLm. apply leftmost_T. discriminate. }
+    apply leftmost_spec in HLm as [H1 _]. cbn [plug] in H1.
+    cbv zeta. rewrite del_one_eq.
+    assert (E : plug (T_ c (T_ lc ll le lr) e (T_ rc rl re rr)) p =
+                plug (T_ sc L_ se sr) (sp ++ F_ DR c e (T_ lc ll le lr) :: p)).
+    { rewrite plug_app, H1. reflexivity. }
+    rewrite E in Hn, Hr, Hb.
+    destruct (focus_facts _ _ _ _ eq_refl Hn Hr Hb) as (F1 & F2 & (n & F3 & F4) & F5 & F6).
+    rewrite is_red_T in F2, F6.
+    apply bheight_T in F3 as (a & Ba & Bsr & ->). cbn in Ba. injection Ba as <-.
+    apply norr_T in F1 as (Hc & _ & Nsr).
+    apply (path_ok_entry sp DR c e se) in F2.
+    apply (PBH_entry sp DR c e se) in F4.
+    rewrite (last_black_entry sp DR c e se) in F5.
+    apply (delete_one_good sr sc _ m); try assumption.
+    + intros E1. apply (Hc E1).
+    + intros E1. apply app_eq_nil in E1 as [_ E1]. discriminate E1.
+Qed.
+
+Lemma too_small_root c l e r : too_small (T_ c l e r) = false -> l <> L_ /\ r <> L_.
+Proof.
+  cbn [too_small]. intros H. apply orb_false_iff in H as [H1 H2].
+  split; intros ->; discriminate.
+Qed.
+
+(* the located node is the one we were asked to remove *)
+Lemma locate_present t h k e :
+  sorted (t_elems t) -> In e (t_elems t) -> nh e = h -> nk e = k ->
+  exists c l r p, locate t h k [] = (T_ c l e r, p).
+Proof.
+  intros Hs Hi Hh Hk. destruct (locate t h k []) as [s p] eqn:HL.
+  destruct s as [|c l e' r].
+  - exfalso. destruct (locate_elems _ _ _ _ _ _ HL Hs) as (A & B & E1 & _ & _ & HA & HB).
+    rewrite E1 in Hi. cbn [t_elems app] in Hi. apply in_app_or in Hi as [Hi|Hi].
+    + apply HA in Hi. unfold nlt, pk in Hi; cbn in Hi. lia.
+    + apply HB in Hi. unfold nlt, pk in Hi; cbn in Hi. lia.
+  - destruct (locate_in _ _ _ _ _ _ _ _ HL) as (Hi' & Hh' & Hk').
+    assert (e' = e) by (apply (sorted_unique (t_elems t)); auto; congruence).
+    subst e'. eauto.
+Qed.
+
+(* goal 5 *)
+Theorem t_delete_rb : forall t h k e,
+  rb_b t = true -> too_small t = false -> In e (t_elems t) -> nh e = h -> nk e = k ->
+  rb_b (t_delete t h k) = true /\ Permutation (t_elems t) (e :: t_elems (t_delete t h k)).
+Proof.
+  intros t h k e Hrb Hts Hi Hh Hk.
+  apply rb_good in Hrb as (Hs & Hn & Hr & m & Hb).
+  destruct (locate_present t h k e Hs Hi Hh Hk) as (c & l & r & p & HL).
+  unfold t_delete. rewrite HL.
+  pose proof (locate_plug _ _ _ _ _ _ HL) as HP. cbn [plug] in HP.
+  assert (HE : t_elems t = (pl p ++ t_elems l) ++ e :: t_elems r ++ pr p).
+  { rewrite <- HP, elems_plug. cbn [t_elems]. lnorm. reflexivity. }
+  assert (HE' : t_elems (t_delete_at c l r p) = (pl p ++ t_elems l) ++ t_elems r ++ pr p).
+  { rewrite t_delete_at_elems. lnorm. reflexivity. }
+  split.
+  - apply rb_good. split.
+    + rewrite HE'. rewrite HE in Hs. apply sorted_remove_mid in Hs. exact Hs.
+    + rewrite <- HP in Hn, Hr, Hb. apply (t_delete_at_good c l e r p m Hn Hr Hb).
+      intros ->. cbn [plug] in HP. subst t. apply (too_small_root _ _ _ _ Hts).
+  - rewrite HE, HE'. symmetry. apply Permutation_middle.
+Qed.
+
+(* ---------- t_set ---------- *)
+Definition upd (h k : N) (v : Z) (n : node) : node :=
+  if matches h k n then N_ (nh n) (nk n) (ni n) v else n.
+
+Lemma upd_nh h k v n : nh (upd h k v n) = nh n.
+Proof. unfold upd. destruct (matches h k n); reflexivity. Qed.
+Lemma upd_nk h k v n : nk (upd h k v n) = nk n.
+Proof. unfold upd. destruct (matches h k n); reflexivity. Qed.
+
+Lemma nlt_upd h k v a b : nlt (upd h k v a) (upd h k v b) <-> nlt a b.
+Proof. unfold nlt. rewrite !upd_nh, !upd_nk. tauto. Qed.
+
+Lemma sorted_map_upd h k v l : sorted l -> sorted (map (upd h k v) l).
+Proof.
+  induction l as [|x l IH]; cbn [map]; intros H; [apply sorted_nil|].
+  apply sorted_cons in H as [H1 H2]. apply sorted_cons. split; [auto|].
+  intros b Hb. apply in_map_iff in Hb as (b' & <- & Hb'). apply nlt_upd. auto.
+Qed.
+
+Lemma matches_false_lt h k a : nlt a (pk h k) -> matches h k a = false.
+Proof.
+  intros H. destruct (matches h k a) eqn:E; [|reflexivity]. apply matches_iff in E.
+  unfold nlt, pk in H; cbn in H. lia.
+Qed.
+Lemma matches_false_gt h k a : nlt (pk h k) a -> matches h k a = false.
+Proof.
+  intros H. destruct (matches h k a) eqn:E; [|reflexivity]. apply matches_iff in E.
+  unfold nlt, pk in H; cbn in H. lia.
+Qed.
+
+Lemma upd_nomatch h k v e : matches h k e = false -> upd h k v e = e.
+Proof. unfold upd. intros ->. reflexivity. Qed.
+
+Lemma map_upd_id h k v l : (forall a, In a l -> matches h k a = false) -> map (upd h k v) l = l.
+Proof.
+  induction l as [|x l IH]; intros H; cbn [map]; [reflexivity|].
+  rewrite IH by (intros a Ha; apply H; right; exact Ha).
+  unfold upd. rewrite (H x (or_introl eq_refl)). reflexivity.
+Qed.
+
+Lemma t_set_elems_sorted t h k v :
+  sorted (t_elems t) -> t_elems (t_set t h k v) = map (upd h k v) (t_elems t).
+Proof.
+  induction t as [|c l IHl e r IHr]; intros Hs; cbn [t_set t_elems map]; [reflexivity|].
+  apply sorted_app in Hs as (Sl & Sr & Hlr). apply sorted_cons in Sr as (Sr & HR0).
+  assert (HR : forall b, In b (t_elems r) -> nlt e b) by exact HR0. clear HR0.
+  assert (HL : forall a, In a (t_elems l) -> nlt a e) by (intros a Ha; apply Hlr; [assumption|left; reflexivity]).
+  rewrite map_app. cbn [map].
+  pose proof (ncmp_spec h k e) as Hc. destruct (ncmp h k e); cbn [t_elems].
+  - destruct Hc as [Hh Hk].
+    rewrite (map_upd_id h k v (t_elems l)), (map_upd_id h k v (t_elems r)).
+    + unfold upd. assert (Hm : matches h k e = true) by (apply matches_iff; auto). rewrite Hm. reflexivity.
+    + intros a Ha. apply matches_false_gt. apply HR in Ha. unfold nlt, pk in *; cbn; lia.
+    + intros a Ha. apply matches_false_lt. apply HL in Ha. unfold nlt, pk in *; cbn; lia.
+  - rewrite (IHl Sl), (map_upd_id h k v (t_elems r)).
+    + rewrite (upd_nomatch h k v e) by (apply matches_false_gt; exact Hc). reflexivity.
+    + intros a Ha. apply matches_false_gt. eapply nlt_trans; [exact Hc|auto].
+  - rewrite (IHr Sr), (map_upd_id h k v (t_elems l)).
+    + rewrite (upd_nomatch h k v e) by (apply matches_false_lt; exact Hc). reflexivity.
+    + intros a Ha. apply matches_false_lt. eapply nlt_trans; [|exact Hc]. auto.
+Qed.
+
+Lemma is_red_t_set t h k v : is_red (t_set t h k v) = is_red t.
+Proof. destruct t as [|c l e r]; [reflexivity|]. cbn [t_set]. destruct (ncmp h k e); reflexivity. Qed.
+
+Lemma bheight_t_set t h k v : bheight (t_set t h k v) = bheight t.
+Proof.
+  induction t as [|c l IHl e r IHr]; [reflexivity|]. cbn [t_set].
+  destruct (ncmp h k e); cbn [bheight]; rewrite ?IHl, ?IHr; reflexivity.
+Qed.
+
+Lemma norr_t_set t h k v : no_red_red (t_set t h k v) = no_red_red t.
+Proof.
+  induction t as [|c l IHl e r IHr]; [reflexivity|]. cbn [t_set].
+  destruct (ncmp h k e); cbn [no_red_red]; rewrite ?IHl, ?IHr, ?is_red_t_set; reflexivity.
+Qed.
+
+(* goal 4 *)
+Theorem t_set_rb : forall t h k v, rb_b t = true -> rb_b (t_set t h k v) = true.
+Proof.
+  intros t h k v H. apply rb_b_iff in H as (Hs & Hr & Hn & Hb). apply rb_b_iff.
+  rewrite is_red_t_set, norr_t_set, bheight_t_set, t_set_elems_sorted by assumption.
+  repeat split; try assumption. apply sorted_map_upd. assumption.
+Qed.
+
+(* the element with pair (h,k), if any, has its value replaced; nothing else changes *)
+Theorem t_set_elems : forall t h k v,
+  ordered t None None = true -> t_elems (t_set t h k v) = map (upd h k v) (t_elems t).
+Proof. intros t h k v H. apply t_set_elems_sorted. apply ordered_sorted. exact H. Qed.
+
+Lemma lb_set_map h k v l :
+  NoDup (map (fun n => (nh n, nk n)) l) -> lb_set l h k v = map (upd h k v) l.
+Proof.
+  induction l as [|x l IH]; intros Hnd; cbn [lb_set map]; [reflexivity|].
+  cbn [map] in Hnd. inversion Hnd as [|? ? Hni Hnd']; subst.
+  unfold upd at 1. destruct (matches h k x) eqn:E.
+  - rewrite map_upd_id; [reflexivity|]. intros a Ha.
+    destruct (matches h k a) eqn:Ea; [|reflexivity]. exfalso. apply Hni.
+    apply matches_iff in E. apply matches_iff in Ea. apply in_map_iff. exists a.
+    split; [|assumption]. destruct E, Ea. congruence.
+  - rewrite IH by assumption. reflexivity.
+Qed.
+
+Theorem t_set_elems_lb : forall t h k v,
+  ordered t None None = true -> t_elems (t_set t h k v) = lb_set (t_elems t) h k v.
+Proof.
+  intros t h k v H. rewrite t_set_elems by assumption. symmetry. apply lb_set_map.
+  apply sorted_NoDup_keys. apply ordered_sorted. exact H.
+Qed.
+
+(* ---------- reflection of the list-level checks ---------- *)
+Lemma node_eqb_eq a b : node_eqb a b = true <-> a = b.
+Proof.
+  destruct a as [ah ak ai av], b as [bh bk bi bv]. unfold node_eqb. cbn [nh nk ni nv].
+  rewrite !andb_true_iff, !N.eqb_eq, Z.eqb_eq. split.
+  - intros (((-> & ->) & ->) & ->). reflexivity.
+  - intros E. injection E as -> -> -> ->. auto.
+Qed.
+
+Lemma mem_node_eq x l : mem_node x l = existsb (node_eqb x) l.
+Proof. destruct l; reflexivity. Qed.
+
+Lemma mem_node_in x l : mem_node x l = true <-> In x l.
+Proof.
+  rewrite mem_node_eq, existsb_exists. split.
+  - intros (y & Hy & E). apply node_eqb_eq in E. subst. exact Hy.
+  - intros H. exists x. split; [exact H|]. apply node_eqb_eq. reflexivity.
+Qed.
+
+Lemma same_nodes_iff a b :
+  same_nodes a b = true <-> length a = length b /\ incl a b /\ incl b a.
+Proof.
+  unfold same_nodes. rewrite !andb_true_iff, Nat.eqb_eq, !forallb_forall. unfold incl.
+  split.
+  - intros ((H1 & H2) & H3). repeat split; auto; intros x Hx; apply mem_node_in; auto.
+  - intros (H1 & H2 & H3). repeat split; auto; intros x Hx; apply mem_node_in; auto.
+Qed.
+
+Lemma same_nodes_perm a b : NoDup a -> (same_nodes a b = true <-> Permutation a b).
+Proof.
+  intros Hnd. rewrite same_nodes_iff. split.
+  - intros (H1 & H2 & _). apply NoDup_Permutation_bis; auto. rewrite H1. apply le_n.
+  - intros H. split; [apply Permutation_length; assumption|].
+    split; intros x Hx.
+    + apply (Permutation_in _ H Hx).
+    + apply (Permutation_in _ (Permutation_sym H) Hx).
+Qed.
+
+Lemma nodup_keys_iff l : nodup_keys l = true <-> NoDup (map nk l).
+Proof.
+  induction l as [|x l IH]; cbn [nodup_keys map].
+  - split; [constructor|reflexivity].
+  - rewrite andb_true_iff, negb_true_iff, IH. split.
+    + intros [H1 H2]. constructor; [|assumption]. intros Hin.
+      apply in_map_iff in Hin as (y & Hy & Hin).
+      assert (E : existsb (fun y => nk y =? nk x) l = true).
+      { apply existsb_exists. exists y. split; [assumption|]. apply N.eqb_eq. assumption. }
+      congruence.
+    + intros H. inversion H as [|? ? H1 H2]; subst. split; [|assumption].
+      destruct (existsb (fun y => nk y =? nk x) l) eqn:E; [|reflexivity].
+      apply existsb_exists in E as (y & Hy & E). apply N.eqb_eq in E.
+      exfalso. apply H1. apply in_map_iff. exists y. auto.
+Qed.
+
+Lemma NoDup_nk_keys l : NoDup (map nk l) -> NoDup (map (fun n => (nh n, nk n)) l).
+Proof.
+  intros H. apply (NoDup_map_inv snd). rewrite map_map. cbn [snd]. exact H.
+Qed.
+
+Lemma tb_b_iff b :
+  tb_b b = true <->
+  rb_b (troot b) = true /\ NoDup (map nk (tord b)) /\ Permutation (t_elems (troot b)) (tord b).
+Proof.
+  unfold tb_b. rewrite !andb_true_iff, nodup_keys_iff. split.
+  - intros ((H1 & H2) & H3). repeat split; try assumption.
+    apply same_nodes_perm; [|assumption].
+    apply rb_good in H1 as [Hs _]. apply sorted_NoDup. assumption.
+  - intros (H1 & H2 & H3). repeat split; try assumption.
+    apply same_nodes_perm; [|assumption].
+    apply rb_good in H1 as [Hs _]. apply sorted_NoDup. assumption.
+Qed.
+
+Lemma lb_find_find l h k : lb_find l h k = find (matches h k) l.
+Proof. induction l as [|x l IH]; cbn; [reflexivity|]. rewrite IH. reflexivity. Qed.
+
+Lemma NoDup_keys_unique l x y :
+  NoDup (map (fun n => (nh n, nk n)) l) -> In x l -> In y l -> nh x = nh y -> nk x = nk y -> x = y.
+Proof.
+  induction l as [|z l IH]; intros Hnd Hx Hy Eh Ek; [destruct Hx|].
+  cbn [map] in Hnd. inversion Hnd as [|? ? Hni Hnd']; subst.
+  destruct Hx as [->|Hx], Hy as [->|Hy].
+  - reflexivity.
+  - exfalso. apply Hni. apply in_map_iff. exists y. split; [congruence|assumption].
+  - exfalso. apply Hni. apply in_map_iff. exists x. split; [congruence|assumption].
+  - auto.
+Qed.
+
+Lemma find_perm h k a b :
+  Permutation a b -> NoDup (map (fun n => (nh n, nk n)) a) ->
+  find (matches h k) a = find (matches h k) b.
+Proof.
+  intros Hp Hnd. destruct (find (matches h k) a) as [x|] eqn:Ea.
+  - apply find_some in Ea as [Hx Mx].
+    destruct (find (matches h k) b) as [y|] eqn:Eb.
+    + apply find_some in Eb as [Hy My]. apply Permutation_sym in Hp.
+      apply (Permutation_in _ Hp) in Hy.
+      apply matches_iff in Mx. apply matches_iff in My. destruct Mx, My.
+      f_equal. apply (NoDup_keys_unique a); auto; congruence.
+    + apply (Permutation_in _ Hp) in Hx. apply (find_none _ _ Eb) in Hx. congruence.
+  - symmetry. apply find_none_intro. intros y Hy. apply Permutation_sym in Hp.
+    apply (Permutation_in _ Hp) in Hy. apply (find_none _ _ Ea). assumption.
+Qed.
+
+(* goal 3, corollary: no extra hypothesis is needed *)
+Theorem t_find_lb_find : forall b h k,
+  tb_b b = true -> t_find (troot b) h k = lb_find (tord b) h k.
+Proof.
+  intros b h k H. apply tb_b_iff in H as (H1 & H2 & H3).
+  apply rb_good in H1 as [Hs _].
+  rewrite lb_find_find, t_find_sorted by assumption.
+  apply find_perm; [assumption|]. apply sorted_NoDup_keys. assumption.
+Qed.
+
+(* ---------- goal 7: the tree-bin operations keep tb_b ---------- *)
+Theorem tb_new_ok : forall l,
+  nodup_keys l = true ->
+  (forall a b, In a l -> In b l -> nk a = nk b -> nh a = nh b) ->
+  l <> [] -> tb_b (tb_new l) = true.
+Proof.
+  intros l H _ _. apply nodup_keys_iff in H. apply tb_b_iff. cbn [tb_new troot tord].
+  destruct (t_new_rb l (NoDup_nk_keys _ H)) as [H1 H2]. auto.
+Qed.
+
+Theorem tb_put_ok : forall b e,
+  tb_b b = true -> (forall a, In a (tord b) -> nk a <> nk e) -> tb_b (tb_put b e) = true.
+Proof.
+  intros b e H Hfresh. apply tb_b_iff in H as (H1 & H2 & H3). apply tb_b_iff.
+  cbn [tb_put troot tord].
+  assert (Hf : t_find (troot b) (nh e) (nk e) = None).
+  { apply t_find_absent.
+    - apply rb_good in H1 as [Hs _]. apply ordered_sorted. assumption.
+    - intros a Ha [_ E]. apply (Permutation_in _ H3) in Ha. apply (Hfresh a Ha E). }
+  split; [apply t_insert_rb; assumption|]. split.
+  - cbn [map]. constructor; [|assumption]. intros Hin. apply in_map_iff in Hin as (a & E & Ha).
+    apply (Hfresh a Ha E).
+  - eapply Permutation_trans; [apply t_insert_elems; assumption|]. apply perm_skip. assumption.
+Qed.
+
+Lemma map_nk_upd h k v l : map nk (map (upd h k v) l) = map nk l.
+Proof. rewrite map_map. apply map_ext. intros a. apply upd_nk. Qed.
+
+Theorem tb_set_ok : forall b h k v, tb_b b = true -> tb_b (tb_set b h k v) = true.
+Proof.
+  intros b h k v H. apply tb_b_iff in H as (H1 & H2 & H3). apply tb_b_iff.
+  cbn [tb_set troot tord].
+  pose proof H1 as H1'. apply rb_good in H1' as [Hs _].
+  rewrite (lb_set_map h k v (tord b)) by (apply NoDup_nk_keys; assumption).
+  rewrite t_set_elems_sorted by assumption.
+  split; [apply t_set_rb; assumption|]. split.
+  - rewrite map_nk_upd. assumption.
+  - apply Permutation_map. assumption.
+Qed.
+
+Lemma lb_remove_none h k l : find (matches h k) l = None -> lb_remove l h k = l.
+Proof.
+  induction l as [|x l IH]; cbn [find lb_remove]; [reflexivity|].
+  destruct (matches h k x); [discriminate|]. intros H. rewrite IH by assumption. reflexivity.
+Qed.
+
+Lemma lb_remove_some h k l e :
+  find (matches h k) l = Some e -> Permutation l (e :: lb_remove l h k).
+Proof.
+  induction l as [|x l IH]; cbn [find lb_remove]; [discriminate|].
+  destruct (matches h k x).
+  - intros E. injection E as ->. apply Permutation_refl.
+  - intros E. eapply Permutation_trans; [apply perm_skip; apply IH; assumption|]. apply perm_swap.
+Qed.
+
+Theorem tb_remove_ok : forall b h k b',
+  tb_b b = true -> tb_remove b h k = (b', false) -> tb_b b' = true.
+Proof.
+  intros b h k b' H Hrm. apply tb_b_iff in H as (H1 & H2 & H3).
+  unfold tb_remove in Hrm.
+  destruct (lb_remove (tord b) h k) as [|y ord'] eqn:Eord; [discriminate Hrm|].
+  destruct (too_small (troot b)) eqn:Ets; [discriminate Hrm|].
+  injection Hrm as <-. rewrite <- Eord. clear y ord' Eord.
+  apply tb_b_iff. cbn [troot tord].
+  pose proof H1 as H1'. apply rb_good in H1' as [Hs _].
+  destruct (find (matches h k) (tord b)) as [e|] eqn:Ef.
+  - pose proof (lb_remove_some _ _ _ _ Ef) as Hp.
+    apply find_some in Ef as [Hi Hm]. apply matches_iff in Hm as [Hh Hk].
+    apply Permutation_sym in H3. pose proof (Permutation_in _ H3 Hi) as Hi'.
+    destruct (t_delete_rb (troot b) h k e H1 Ets Hi' Hh Hk) as [R1 R2].
+    split; [assumption|]. split.
+    + apply (Permutation_map nk) in Hp. apply (Permutation_NoDup Hp) in H2.
+      cbn [map] in H2. inversion H2; assumption.
+    + apply (Permutation_cons_inv (a := e)).
+      eapply Permutation_trans; [apply Permutation_sym; exact R2|].
+      eapply Permutation_trans; [apply Permutation_sym; exact H3|]. exact Hp.
+  - rewrite (lb_remove_none _ _ _ Ef).
+    assert (Habs : absent h k (t_elems (troot b))).
+    { intros a Ha E. apply (Permutation_in _ H3) in Ha. apply (find_none _ _ Ef) in Ha.
+      apply matches_iff in E. congruence. }
+    unfold t_delete. destruct (locate (troot b) h k []) as [s p] eqn:HL.
+    rewrite (locate_absent _ _ _ _ _ HL Habs). auto.
+Qed.
+
+(* ---------- sanity checks (non-vacuity, and why too_small is needed) ---------- *)
+Definition demo_nodes : list node :=
+  map (fun i => N_ (i / 2) i 0 0%Z) [5; 1; 9; 3; 7; 2; 8; 4; 6; 10; 12; 11].
+
+Example demo_delete :
+  let t := t_new demo_nodes in
+  rb_b t = true /\ too_small t = false /\
+  forallb (fun n => rb_b (t_delete t (nh n) (nk n))) demo_nodes = true.
+Proof. vm_compute. auto. Qed.
+
+(* without [too_small t = false] the conclusion of t_delete_rb fails: removing the root of a
+   two-node tree leaves its red child as the (red) root, exactly as in the implementation,
+   where this shape is untreeified instead *)
+Example t_delete_needs_too_small :
+  let t := T_ false (T_ true L_ (N_ 1 1 0 0%Z) L_) (N_ 2 2 0 0%Z) L_ in
+  rb_b t = true /\ too_small t = true /\ rb_b (t_delete t 2 2) = false.
+Proof. vm_compute. auto. Qed.
+
+(* ---------- axiom audit ---------- *)
+Print Assumptions t_insert_rb.
+Print Assumptions t_insert_elems.
+Print Assumptions t_new_rb.
+Print Assumptions t_find_spec.
+Print Assumptions t_find_lb_find.
+Print Assumptions t_set_rb.
+Print Assumptions t_set_elems.
+Print Assumptions t_set_elems_lb.
+Print Assumptions t_delete_rb.
+Print Assumptions rb_height.
+Print Assumptions t_find_cost_le.
+Print Assumptions tb_new_ok.
+Print Assumptions tb_put_ok.
+Print Assumptions tb_set_ok.
+Print Assumptions tb_remove_ok.
